@@ -465,11 +465,12 @@ def skew(v):
     :seealso: :func:`vex`, :func:`skewa`
     :SymPy: supported
     """
-    if isinstance(v, np.ndarray) and v.dtype.kind in 'iu':
+    v = base.getvector(v, None)
+    if v.dtype.kind in 'iu':
         # negation wraps around for unsigned elements, and for the most negative
-        # value of a signed type
+        # value of a signed type (also when they arrive as a list of NumPy integers)
         v = v.astype(np.float64)
-    v = base.getvector(v, None, 'sequence')
+    v = list(v)
     if len(v) == 1:
         return np.array([
                 [ 0,   -v[0] ],
